@@ -202,6 +202,24 @@ impl Decoder<'_> {
 
 include!("autogen_decode_operand.rs");
 
+/// Verification hooks (compiled only under `cfg(kani)` / `--cfg rspirv_verif`).
+#[cfg(any(kani, rspirv_verif))]
+impl<'a> Decoder<'a> {
+    /// Builds a `Decoder` in an arbitrary state.
+    pub fn verif_at(bytes: &'a [u8], offset: usize, limit: Option<usize>) -> Decoder<'a> {
+        Decoder {
+            bytes,
+            offset,
+            limit,
+        }
+    }
+
+    /// Returns the remaining limit, if any.
+    pub fn verif_limit(&self) -> Option<usize> {
+        self.limit
+    }
+}
+
 #[cfg(test)]
 mod tests {
     use crate::spirv;
